@@ -42,7 +42,7 @@ func newMachine(P *Program, fn *ssa.Function, fc *FuncContract) *Machine {
 		implUsed: map[string]*types.Interface{}, globals: map[*ssa.Global]int64{},
 		trusted: map[string]bool{}, usedContracts: map[string]bool{},
 		loops: map[*ssa.Function]*loopInfo{}, loopHavoc: map[string]map[string]bool{},
-		baseInfo: map[int]*baseArrInfo{}, maxPaths: 5000, ctxParent: map[int]*Iface{}, runeSrc: map[int]*runeInfo{},
+		baseInfo: map[int]*baseArrInfo{}, maxPaths: 5000, ctxParent: map[int]*Iface{}, runeSrc: map[int]*runeInfo{}, recCache: map[*ssa.Function]bool{}, recReads: map[*ssa.Function][]string{}, recDepth: map[*ssa.Function]int{}, memSortOf: map[string]*Sort{},
 	}
 	if fc != nil && fc.MaxPaths > 0 {
 		m.maxPaths = fc.MaxPaths
@@ -55,6 +55,8 @@ func verifyFunc(P *Program, name string) (rep *FuncReport) {
 	return verifyFuncMode(P, name, false)
 }
 
+var onlyProperty string
+
 func verifyFuncMode(P *Program, name string, refute bool) (rep *FuncReport) {
 	fc := P.Contracts.Funcs[name]
 	fn := P.Funcs[name]
@@ -65,6 +67,7 @@ func verifyFuncMode(P *Program, name string, refute bool) (rep *FuncReport) {
 	}
 	m := newMachine(P, fn, fc)
 	m.refute = refute
+	m.onlyProp = onlyProperty
 	rep.Mode = m.mode.String()
 	start := time.Now()
 	defer func() {
